@@ -13,6 +13,14 @@
 // every element of S" is required (the set is unordered).  At end of input the documented
 // text of get_char_error is "EOF".  Afterwards the stream position is the model position of
 // the index after the last character consumed.
+// The location in the message is checked twice: the numbers are read back from the text (plain decimal, no
+// padding) and compared as integers with the model, and the rendered text is compared with the reference
+// formatting "Line " + std::to_string(line) + ":" + std::to_string(column) + ": Expected ".
+// Shards: errtext (all texts up to length 4/6, every offset, every literal/set), errgrid (the offending character
+// at every line L / column C with L + C <= 13, i.e. every location reachable inside the stated bound of 12
+// characters), errloc (reported line and column over a lattice of values up to 65536 around which the decimal
+// rendering changes size; also operator<< of fcppt::parse::location).
+// Only these four parsers go through fcppt::parse::detail::expected / print a location (grep over libs/parse).
 #include "C12_common.hpp"
 
 #include <fcppt/unit.hpp>
@@ -33,6 +41,9 @@
 #include <fcppt/parse/skipper/literal.hpp>
 #include <fcppt/parse/skipper/run.hpp>
 
+#include <fcppt/parse/location_output.hpp>
+
+#include <sstream>
 #include <type_traits>
 
 namespace
@@ -90,17 +101,52 @@ template <class Ch> struct ctx
                 narrow_msg(msg).c_str());
       return;
     }
-    loc const m = model_loc(text, at + 1);
+    check_located(fam, msg, model_loc(text, at + 1), text[at], at);
+  }
+
+  // strict reading of "Line <l>:<c>: " -- decimal digits without sign, padding or leading zeros
+  static bool read_location(std::basic_string<Ch> const &msg, std::uint64_t &l, std::uint64_t &c)
+  {
+    std::basic_string<Ch> const head = widen<Ch>("Line ");
+    if (msg.compare(0, head.size(), head) != 0)
+      return false;
+    std::size_t p = head.size();
+    auto number = [&](std::uint64_t &out) {
+      std::size_t const b = p;
+      out = 0;
+      while (p < msg.size() && msg[p] >= Ch('0') && msg[p] <= Ch('9') && p - b < 19)
+        out = out * 10 + static_cast<std::uint64_t>(msg[p++] - Ch('0'));
+      return p > b && (msg[b] != Ch('0') || p - b == 1);
+    };
+    if (!number(l) || p >= msg.size() || msg[p++] != Ch(':') || !number(c))
+      return false;
+    return p + 1 < msg.size() && msg[p] == Ch(':') && msg[p + 1] == Ch(' ');
+  }
+
+  // m: the model location right after the offending character `got` (which sits at offset `at`)
+  void check_located(std::string const &fam, std::basic_string<Ch> const &msg, loc const m, Ch const got, std::size_t at) const
+  {
+    // (i) the numbers in the message, read back as integers
+    std::uint64_t ml = 0, mc = 0;
+    bool const readable = read_location(msg, ml, mc);
+    VRT_CHECK(readable, fam + t + ":location_format", "%s at offset %zu of %s (model location afterwards %llu:%llu): error text '%s' does not begin 'Line <line>:<column>: ' with plain decimal numbers",
+              what().c_str(), at, show_text(text).c_str(), static_cast<unsigned long long>(m.line), static_cast<unsigned long long>(m.column),
+              narrow_msg(msg.substr(0, 80)).c_str());
+    if (readable)
+      VRT_CHECK(ml == m.line && mc == m.column, fam + t + ":location_value", "%s at offset %zu of %s: the error text says %llu:%llu, the location right after the offending character is %llu:%llu",
+                what().c_str(), at, show_text(text).c_str(), static_cast<unsigned long long>(ml), static_cast<unsigned long long>(mc),
+                static_cast<unsigned long long>(m.line), static_cast<unsigned long long>(m.column));
+    // (ii) the rendered text against the reference formatting (std::to_string)
     std::basic_string<Ch> const prefix =
         widen<Ch>("Line " + std::to_string(m.line) + ":" + std::to_string(m.column) + ": Expected ");
-    std::basic_string<Ch> const suffix = widen<Ch>(", got ") + text[at];
+    std::basic_string<Ch> const suffix = widen<Ch>(", got ") + got;
     bool const pre = msg.size() >= prefix.size() && msg.compare(0, prefix.size(), prefix) == 0;
     VRT_CHECK(pre, fam + t + ":location", "%s at offset %zu of %s: error text '%s' does not start with '%s' (location right after the offending character)",
-              what().c_str(), at, show_text(text).c_str(), narrow_msg(msg).c_str(), narrow_msg(prefix).c_str());
-    bool const suf = msg.size() >= prefix.size() + suffix.size() && msg.compare(msg.size() - suffix.size(), suffix.size(), suffix) == 0;
+              what().c_str(), at, show_text(text).c_str(), narrow_msg(msg.substr(0, 80)).c_str(), narrow_msg(prefix).c_str());
+    bool const suf = msg.size() >= suffix.size() && msg.compare(msg.size() - suffix.size(), suffix.size(), suffix) == 0;
     VRT_CHECK(suf, fam + t + ":got", "%s at offset %zu of %s: error text '%s' does not end with '%s'", what().c_str(), at, show_text(text).c_str(),
-              narrow_msg(msg).c_str(), narrow_msg(suffix).c_str());
-    if (pre && suf)
+              narrow_msg(msg.substr(0, 80)).c_str(), narrow_msg(suffix).c_str());
+    if (pre && suf && msg.size() >= prefix.size() + suffix.size())
     {
       std::basic_string<Ch> const mid = msg.substr(prefix.size(), msg.size() - prefix.size() - suffix.size());
       if (lit >= 0)
@@ -199,11 +245,11 @@ template <class Ch, class Skipper> void run_skipper(ctx<Ch> const &c, Skipper co
   c.check_position_after(fam, w, consumed);
 }
 
-template <class Ch> void one(std::basic_string<Ch> const &text, std::size_t j, int lit, unsigned mask, int kind)
+template <class Ch> void one(std::basic_string<Ch> const &text, std::size_t j, int lit, unsigned mask, int kind, char const *family = "errtext")
 {
   ctx<Ch> c{text, j, lit, mask};
   char const *kinds[] = {"direct", "parse", "skipper::run", "phrase_parse(char_,skipper)"};
-  std::string const fn = std::string("errtext<") + cname<Ch>::v + ">";
+  std::string const fn = std::string(family) + "<" + cname<Ch>::v + ">";
   if (!vrt::begin_text(fn.c_str(), c.what() + " via " + kinds[kind] + " at offset " + std::to_string(j) + " of " + show_text(text)))
     return;
   bool const mismatch = j < text.size() && !c.matches(text[j]);
@@ -254,6 +300,185 @@ template <class Ch> void errtext_part(int maxlen, unsigned part, unsigned nparts
       }
   }
 }
+
+// ---------------------------------------------------------------- (d1) every location of the stated bound
+// The offending character X (each letter of the alphabet) sits at line L, column C: the text is L-1 newlines,
+// C-1 times 'a', then X, for all L + C <= 13 (text length <= 12).  Every literal / character set that does not
+// contain X, every entry point.  The message must carry L:C+1 (or L+1:1 if X is the newline).
+template <class Ch> void errgrid_part(unsigned part, unsigned nparts)
+{
+  unsigned n = 0;
+  for (std::size_t L = 1; L <= 12; ++L)
+    for (std::size_t C = 1; L + C <= 13; ++C)
+      for (int x = 0; x < 4; ++x)
+      {
+        if (n++ % nparts != part)
+          continue;
+        std::basic_string<Ch> text(L - 1, Ch('\n'));
+        text.append(C - 1, Ch('a'));
+        text += letter<Ch>(0, x);
+        std::size_t const j = text.size() - 1;
+        for (int kind = 0; kind < 4; ++kind)
+        {
+          for (int lit = 0; lit < 4; ++lit)
+            if (lit != x)
+              one<Ch>(text, j, lit, 0, kind, "errgrid");
+          for (unsigned mask = 1; mask < 16; ++mask)
+            if (((mask >> x) & 1U) == 0)
+              one<Ch>(text, j, -1, mask, kind, "errgrid");
+        }
+      }
+}
+
+// ---------------------------------------------------------------- (d2) lattice of large locations
+// The *reported* location l:c runs over lattice x lattice (values around which the decimal rendering changes
+// size).  c >= 2: text = (l-1) newlines, (c-2) times 'a', offending 'a'.  c == 1 (l >= 2): text = (l-2) newlines,
+// `fill` times 'a', offending newline.  Parsers: literal{' '}, char_set{' ','\t'} and their skipper versions, each
+// through both entry points, on one stream that is rewound to the saved position before the offending character
+// (the first run happens without a rewind).  Also: operator<< of fcppt::parse::location for l:c.
+template <class Ch> void lattice_case(std::uint64_t l, std::uint64_t c, std::size_t fill)
+{
+  std::string const fn = std::string("errloc<") + cname<Ch>::v + ">";
+  if (!vrt::begin(fn.c_str(), l, c, fill))
+    return;
+  vrt::nontrivial(l >= 10 || c >= 10); // a number with more than one digit is rendered
+  vrt::maybe_sample();
+  std::string const t = std::string("<") + cname<Ch>::v + ">";
+  std::basic_string<Ch> text;
+  Ch offending = Ch('a');
+  if (c >= 2)
+  {
+    text.assign(static_cast<std::size_t>(l - 1), Ch('\n'));
+    text.append(static_cast<std::size_t>(c - 2), Ch('a'));
+  }
+  else
+  {
+    text.assign(static_cast<std::size_t>(l - 2), Ch('\n'));
+    text.append(fill, Ch('a'));
+    offending = Ch('\n');
+  }
+  text += offending;
+  std::size_t const j = text.size() - 1;
+  vrt::describe(vrt::fmt("%s: reported location %llu:%llu, text %s", fn.c_str(), static_cast<unsigned long long>(l), static_cast<unsigned long long>(c),
+                         show_text(text).c_str()));
+  loc const m = model_loc(text, j + 1);
+  VRT_CHECK(m.line == l && m.column == c, "harness:lattice_text", "text gives %llu:%llu", static_cast<unsigned long long>(m.line),
+            static_cast<unsigned long long>(m.column));
+  // operator<< of location (what the documented format of the message is built from)
+  {
+    std::basic_ostringstream<Ch> os;
+    os << fcppt::parse::location{fcppt::parse::line{l}, fcppt::parse::column{c}};
+    VRT_CHECK(os.str() == widen<Ch>(std::to_string(l) + ":" + std::to_string(c)), "location_output" + t + ":wrong", "location %llu:%llu is written '%s'",
+              static_cast<unsigned long long>(l), static_cast<unsigned long long>(c), narrow_msg(os.str()).c_str());
+  }
+  try
+  {
+    string_world<Ch> w(text);
+    for (std::size_t i = 0; i < j; ++i)
+    {
+      fcppt::optional::object<Ch> const g = fcppt::parse::get_char(w.ref());
+      if (!g.has_value() || g.get_unsafe() != text[i])
+      {
+        vrt::fail("get_char" + t + ":wrong_char", vrt::fmt("while advancing to offset %zu: index %zu gave %s", j, i, show_opt(g).c_str()));
+        return;
+      }
+    }
+    position<Ch> const before = fcppt::parse::get_position(w.ref());
+    {
+      std::string const d = position_diff(before, text, j);
+      VRT_CHECK(d.empty(), "get_position" + t + ":wrong:large", "before the offending character of %s: %s", show_text(text).c_str(), d.c_str());
+    }
+    using T = types<Ch>;
+    Ch const sp = letter<Ch>(0, 2);
+    unsigned const mask = 0xCU; // {' ', '\t'}
+    auto after = [&](ctx<Ch> const &cx, std::string const &fam) {
+      position<Ch> const p = fcppt::parse::get_position(w.ref());
+      std::string const d = position_diff(p, text, j + 1);
+      VRT_CHECK(d.empty(), fam + t + ":position_after", "%s on %s: afterwards %s", cx.what().c_str(), show_text(text).c_str(), d.c_str());
+    };
+    int runs = 0;
+    auto rewind = [&] {
+      if (runs++ > 0)
+        fcppt::parse::set_position(w.ref(), before);
+    };
+    for (int set = 0; set < 2; ++set)
+    {
+      ctx<Ch> const cx{text, j, set ? -1 : 2, set ? mask : 0U};
+      for (int via = 0; via < 2; ++via)
+      {
+        // parser
+        {
+          std::string const fam = std::string(set ? "char_set" : "literal") + (via ? ":parse" : ":direct");
+          rewind();
+          auto run = [&](auto const &parser) {
+            auto const r = via ? fcppt::parse::parse(parser, w.rs.st) : parser.parse(w.ref(), fcppt::parse::skipper::epsilon());
+            VRT_CHECK(r.has_failure(), fam + t + ":verdict", "%s accepted '%s'", cx.what().c_str(), show_char(offending).c_str());
+            if (r.has_failure())
+              cx.check_located(fam, r.get_failure_unsafe().get(), m, offending, j);
+          };
+          if (set)
+            run(typename T::char_set{make_set<Ch>(mask)});
+          else
+            run(typename T::literal{sp});
+          after(cx, fam);
+        }
+        // skipper
+        {
+          std::string const fam = std::string(set ? "skipper::char_set" : "skipper::literal") + (via ? ":phrase_parse" : ":run");
+          rewind();
+          auto run = [&](auto const &skipper) {
+            if (via)
+            {
+              fcppt::parse::result<Ch, Ch> const r = fcppt::parse::phrase_parse(fcppt::parse::basic_char<Ch>{}, w.rs.st, skipper);
+              VRT_CHECK(r.has_failure(), fam + t + ":verdict", "%s accepted '%s'", cx.what().c_str(), show_char(offending).c_str());
+              if (r.has_failure())
+                cx.check_located(fam, r.get_failure_unsafe().get(), m, offending, j);
+            }
+            else
+            {
+              fcppt::parse::skipper::result<Ch> const r = fcppt::parse::skipper::run(skipper, w.ref());
+              VRT_CHECK(r.has_failure(), fam + t + ":verdict", "%s accepted '%s'", cx.what().c_str(), show_char(offending).c_str());
+              if (r.has_failure())
+                cx.check_located(fam, r.get_failure_unsafe().get(), m, offending, j);
+            }
+          };
+          if (set)
+            run(typename T::sk_char_set{make_set<Ch>(mask)});
+          else
+            run(typename T::sk_literal{sp});
+          after(cx, fam);
+        }
+      }
+    }
+    vrt::count("located_messages_checked_on_the_lattice", 8);
+  }
+  catch (fcppt::parse::detail::exception<Ch> const &e)
+  {
+    vrt::fail(fn + ":exception", "'" + narrow_msg(e.what()) + "' on a healthy string stream");
+  }
+}
+
+template <class Ch> void lattice_part(unsigned part, unsigned nparts)
+{
+  std::vector<std::uint64_t> const &v = lattice();
+  for (std::size_t li = 0; li < v.size(); ++li)
+  {
+    if (li % nparts != part)
+      continue;
+    if (vrt::out_of_time())
+      return;
+    for (std::uint64_t c : v)
+    {
+      if (c >= 2)
+        lattice_case<Ch>(v[li], c, 0);
+      else if (v[li] >= 2)
+      {
+        lattice_case<Ch>(v[li], c, 0);
+        lattice_case<Ch>(v[li], c, 9); // the line before the offending newline is not empty
+      }
+    }
+  }
+}
 }
 
 void c12::register_errtext()
@@ -263,5 +488,12 @@ void c12::register_errtext()
   {
     vrt::shard("errtext<char>/" + std::to_string(part), [part] { errtext_part<char>(vrt::thorough() ? 6 : 4, part, nparts); });
     vrt::shard("errtext<wchar_t>/" + std::to_string(part), [part] { errtext_part<wchar_t>(vrt::thorough() ? 6 : 4, part, nparts); });
+    vrt::shard("errloc<char>/" + std::to_string(part), [part] { lattice_part<char>(part, nparts); });
+    vrt::shard("errloc<wchar_t>/" + std::to_string(part), [part] { lattice_part<wchar_t>(part, nparts); });
+  }
+  for (unsigned part = 0; part < 2; ++part)
+  {
+    vrt::shard("errgrid<char>/" + std::to_string(part), [part] { errgrid_part<char>(part, 2); });
+    vrt::shard("errgrid<wchar_t>/" + std::to_string(part), [part] { errgrid_part<wchar_t>(part, 2); });
   }
 }
